@@ -456,12 +456,16 @@ def eq_no_ordering(rep, rule, mod, u):
                                   'components with Py_EQ only and answers' % name},
                   construct='eq-orders-keys', node=f)
     fixed = set()
-    for n in ccfg(u.func('IB_richcompare')).nodes:
-        for c in node_calls(n):
-            if c.a[0] in ('PyObject_RichCompare', 'PyObject_RichCompareBool') and \
-                    len(c.a[1]) == 3 and c.a[1][2] is not None:
-                o = c.a[1][2]
-                fixed.add(show(o))
+    # over path summaries, so that comparisons moved into new static helpers are
+    # seen with the operator the caller handed them
+    from . import csem as _csem6
+    for ps_ in _csem6.S(u, 'IB_richcompare'):
+        for e_ in ps_.events:
+            if e_.kind == 'call' and e_.name in ('PyObject_RichCompare',
+                                                 'PyObject_RichCompareBool'):
+                a_ = _csem6.args_of(e_)
+                if len(a_) == 3:
+                    fixed.add(a_[2])
     okc = fixed <= {'op', 'Py_EQ', 'Py_NE', '2', '3'}      # Py_EQ = 2, Py_NE = 3
     ccheck(rep, rule, 'IB_richcompare', okc and bool(fixed),
            'component comparisons use the caller\'s operator or Py_EQ (%s)'
